@@ -5,6 +5,8 @@ import Genshi.Model.TmplExtract
 import Genshi.Model.TmplText
 import Genshi.Model.TmplScan
 import Genshi.Model.TmplRaw
+import Genshi.Model.TmplPrint
+import Genshi.Model.TmplScanD
 namespace Driver.C04
 open Genshi Genshi.Tmpl Genshi.Sexp
 
@@ -31,8 +33,19 @@ partial def expr? : Sexp → Option Expr
   | .list [.atom "LEN", a] => do let a ← expr? a; pure (.len a)
   | s => do let a ← atom? s; pure (.lit (.atom a))
 
+/-- an argument of a call: an expression, or `(KW name expr)` -/
+def arg? : Sexp → Option Arg
+  | .list [.atom "KW", .str k, e] => do let e ← expr? e; pure (some k, e)
+  | s => do let e ← expr? s; pure (none, e)
+
+/-- a parameter of a macro: a name, or `(DF name default)` -/
+def param? : Sexp → Option Param
+  | .list [.atom "DF", .str n, e] => do let e ← expr? e; pure (n, some e)
+  | .str n => some (n, none)
+  | _ => none
+
 def xexpr? : Sexp → Option XExpr
-  | .list [.atom "CALL", f, .list args] => do let f ← expr? f; let as ← args.mapM expr?; pure (.call f as)
+  | .list [.atom "CALL", f, .list args] => do let f ← expr? f; let as ← args.mapM arg?; pure (.call f as)
   | s => do let e ← expr? s; pure (.pure e)
 
 def optExpr? : Sexp → Option (Option Expr)
@@ -40,7 +53,7 @@ def optExpr? : Sexp → Option (Option Expr)
   | s => do let e ← expr? s; pure (some e)
 
 def dir? : Sexp → Option Dir
-  | .list [.atom "Def", .str f, .list ps] => do let ps ← ps.mapM Sexp.toStr?; pure (.def_ f ps)
+  | .list [.atom "Def", .str f, .list ps] => do let ps ← ps.mapM param?; pure (.def_ f ps)
   | .list [.atom "When", e] => do let e ← optExpr? e; pure (.when e)
   | .list [.atom "Otherwise"] => some .otherwise
   | .list [.atom "For", .str v, e] => do let e ← expr? e; pure (.for_ v e)
@@ -127,14 +140,18 @@ partial def exprS : Expr → Sexp
 
 def xexprS : XExpr → Sexp
   | .pure e => exprS e
-  | .call f args => .list [.atom "CALL", exprS f, .list (args.map exprS)]
+  | .call f args => .list [.atom "CALL", exprS f, .list (args.map fun
+      | (none, e) => exprS e
+      | (some k, e) => .list [.atom "KW", .str k, exprS e])]
 
 def optS : Option Expr → Sexp
   | none => .atom "NONE"
   | some e => exprS e
 
 def dirS : Dir → Sexp
-  | .def_ f ps => .list [.atom "Def", .str f, .list (ps.map .str)]
+  | .def_ f ps => .list [.atom "Def", .str f, .list (ps.map fun
+      | (n, none) => .str n
+      | (n, some e) => .list [.atom "DF", .str n, exprS e])]
   | .when e => .list [.atom "When", optS e]
   | .otherwise => .list [.atom "Otherwise"]
   | .for_ v e => .list [.atom "For", .str v, exprS e]
@@ -189,6 +206,15 @@ def handleScan : List Sexp → Option Sexp
       some (.list [.list ((Scan.scanNew src).map rtokS), parsedS (Scan.parseToks Scan.stepNew ⟨0, [], []⟩ (Scan.scanNew src))])
   | [.atom "rawold", .str src] =>
       some (.list [.list ((Scan.scanOld src).map otokS), parsedS (Scan.parseToks Scan.stepOld ⟨0, [], []⟩ (Scan.scanOld src))])
+  | [.atom "rawnewd", .str sd, .str ed, .str sc, .str ec, .str src] =>
+      -- NewTextTemplate(source, delims=(sd, ed, sc, ec)): tokens + parsed stream, inside the side condition
+      let d : ScanD.Delims := ⟨sd, ed, sc, ec⟩
+      if !d.ok then some (.atom "unmodelled") else
+      let toks := ScanD.scanD d src
+      some (.list [.list (toks.map fun
+              | .text r => .list [.atom "T", .str r, .str (ScanD.unescapeD d r)]
+              | t => rtokS t),
+            parsedS (Scan.parseToks (ScanD.stepD d) ⟨0, [], []⟩ toks)])
   | [.atom "printnew", .list toks] => do
       let toks ← toks.mapM fun
         | .list [.atom "T", .str s] => some (Scan.CTok.text s)
@@ -230,6 +256,13 @@ def handle : List Sexp → Option Sexp
           -- the construction-time pipeline as the code runs it, per template language
           if markup then pure (.list ((compileFlat nodes).map cevS))
           else pure (.list ((compileText nodes).map cevS))
+      | "printtext" =>
+          -- the specification printer of text templates and the side condition of the inversion
+          -- theorem (lenient / strict reading)
+          if markup then pure (.atom "unmodelled")
+          else if lang == "oldtext" then
+            pure (.list [.str (Print.nodesOld nodes), ofBool (Print.nodesOkOld false nodes), ofBool (Print.nodesOkOld true nodes)])
+          else pure (.list [.str (Print.nodesNew nodes), ofBool (Print.nodesOk false nodes), ofBool (Print.nodesOk true nodes)])
       | _ => none
   | args => handleRaw args
 
